@@ -243,9 +243,17 @@ func credString(creds []vfCred) string {
 func (m *vfModel) checkBinding(ctx *vfReqCtx, in *vfIntent, iss *vfIssued, cred *vfCred) {
 	w := m.w
 	cr := in.CertReq
-	subject := cr.URLUser
+	// the authenticated (normalised) user: the credential the model accepts; failing that, any valid credential presented
+	subject := m.norm(cr.URLUser)
 	if cred != nil {
 		subject = cred.Subject
+	} else {
+		for _, c := range m.credsOf(ctx) {
+			if c.Valid {
+				subject = c.Subject
+				break
+			}
+		}
 	}
 	var key *vfKeyT
 	if cr.KeyName != "" {
